@@ -113,6 +113,10 @@ def strip_style(ir):
     return ir
 
 
+def ST(*items):
+    return {'k': 'set', 'fz': False, 'id': 0, 'items': list(items)}
+
+
 def corpus():
     return [
         {'target': 1, 'spec': ['Not', ['Match', ['Type', 'int'], None], 'ctor']},
@@ -130,6 +134,17 @@ def corpus():
         {'target': 'a', 'spec': ['Switch', [[['MExpr', ['M'], '>', ['Lit', 5]], ['Str', 'zz__missing']]], ['Lit', 'dflt']]},
         {'target': 10, 'spec': ['Or', [['Switch', [[['MExpr', ['M'], '>', ['Lit', 5]], ['Str', 'zz__missing']]], ['Lit', 'dflt']], ['Val', 'or-branch']], None, 'ctor']},
         {'target': 'a', 'spec': ['MExpr', ['M'], '>', ['Lit', 5]]},
+        # comparisons of sets are inclusion tests (a partial order): decided by the model's py_lt / py_le
+        {'target': ST(1, 2), 'spec': ['MExpr', ['M'], 'g', ['Lit', ST(3)]]},
+        {'target': ST(1, 2), 'spec': ['MExpr', ['M'], 'l', ['Lit', ST(2, 3)]]},
+        {'target': ST(1, 2), 'spec': ['MExpr', ['M'], '<', ['Lit', ST(3)]]},
+        {'target': ST(1, 2), 'spec': ['MExpr', ['M'], 'g', ['Lit', ST(1)]]},
+        {'target': ST(1), 'spec': ['MExpr', ['M'], '<', ['Lit', ST(1, 2)]]},
+        {'target': ST(1, 2), 'spec': ['MExpr', ['M'], 'l', ['Lit', ST(1, 2)]]},
+        {'target': ST(1, 2), 'spec': ['MExpr', ['M'], '>', ['Lit', ST(1, 2)]]},
+        {'target': ST(1, 2), 'spec': ['Not', ['MExpr', ['M'], 'g', ['Lit', ST(3)]], 'op']},
+        {'target': ST(1, 2), 'spec': ['Switch', [[['MExpr', ['M'], 'g', ['Lit', ST(3)]], ['Val', 'superset']], [['M'], ['Val', 'other']]], None]},
+        {'target': ST(1, 2), 'spec': ['And', [['MExpr', ['M'], 'g', ['Lit', ST(3)]], ['MExpr', ['M'], 'l', ['Lit', ST(3)]]], ['Lit', 'dflt'], 'op']},
         # ~ on an == / != comparison whose M(T[..]) operand cannot be read: the comparison fails (not a pass), so its negation
         # passes and yields the target — ~(M == c) is not "M != c"
         {'target': {'k': 'dict', 'od': False, 'id': 3, 'items': []}, 'spec': ['Not', ['MExpr', ['MSub', ['T', 'T', [['[', ['Str', 'n']]]]], '=', ['Lit', 1]], 'op']},
